@@ -1,6 +1,6 @@
 //! Case generators for the collision properties C10, C14, C11.
 use crate::gen::*;
-use nalgebra::{Isometry3, Point3, Vector3};
+use nalgebra::{Isometry3, Point3, Translation3, Vector3};
 use parry3d::bounding_volume::BoundingVolume;
 use parry3d::shape::TriMesh;
 use rs_opw_kinematics::collisions::{BaseBody, CheckMode, CollisionBody, RobotBody, SafetyDistances, NEVER_COLLIDES, TOUCH_ONLY};
@@ -349,8 +349,18 @@ pub fn gen_kws(r: &mut Rng, q: &Joints, force_cons: Option<([f64; 6], [f64; 6], 
         for k in 0..6 { f[k] = -r.range(2.0, 3.1); t[k] = r.range(2.0, 3.1); }
         (f, t, *r.pick(&[0.0, 0.0, 1.0, 0.5]))
     });
-    let base_t = if r.chance(0.5) { Isometry3::translation(r.range(-0.3, 0.3), r.range(-0.3, 0.3), r.range(0.0, 0.4)) } else { rand_iso(r, 0.3) };
-    let tool_t = if r.chance(0.5) { axial_iso(r) } else { rand_iso(r, 0.15) };
+    let mut base_t = if r.chance(0.5) { Isometry3::translation(r.range(-0.3, 0.3), r.range(-0.3, 0.3), r.range(0.0, 0.4)) } else { rand_iso(r, 0.3) };
+    let mut tool_t = if r.chance(0.5) { axial_iso(r) } else { rand_iso(r, 0.15) };
+    // exact special cases of the two transforms: a rotated base sitting exactly at the world origin, a tool that only
+    // translates, an identity base, an identity tool
+    match r.below(10) {
+        0 => { base_t = Isometry3::from_parts(Translation3::new(0.0, 0.0, 0.0), rand_quat(r)); tool_t = Isometry3::translation(r.range(-0.1, 0.1), 0.0, r.range(0.0, 0.2)); }
+        1 => { base_t = Isometry3::from_parts(Translation3::new(0.0, 0.0, 0.0), rand_quat(r)); }
+        2 => { tool_t = Isometry3::translation(0.0, 0.0, r.range(0.0, 0.2)); }
+        3 => { base_t = Isometry3::identity(); }
+        4 => { tool_t = Isometry3::identity(); }
+        _ => {}
+    }
     let mut ks = KSpec::bare(p);
     ks.cons = Some(cons);
     ks.stack = vec![Wrap::B(base_t), Wrap::T(tool_t)];
